@@ -913,10 +913,14 @@ class MatrixProduct:
 
     def canonicalise(self, stop_idx: int=None):
         # stop_idx: mix canonical site at `stop_idx`
+        # the sweep starts from the end of the chain. Move the quantum number center there if necessary
+        # (e.g. product states constructed with a `qn_idx` in the middle of the chain)
         if self.to_right:
-            assert self.qnidx == 0
+            if self.qnidx != 0:
+                self.move_qnidx(0)
         else:
-            assert self.qnidx == self.site_num-1
+            if self.qnidx != self.site_num-1:
+                self.move_qnidx(self.site_num-1)
 
         # nothing to sweep for a one-site chain or when `stop_idx` is the current center
         idx = None
